@@ -1673,8 +1673,9 @@ func (n *node) spawn(factory gen.ProcessFactory, options gen.ProcessOptionsExtra
 	// create a new process with provided behavior
 	behavior := factory()
 	if behavior == nil {
-		n.names.Delete(p.name)
-		return p.pid, errors.New("factory function must return non nil value")
+		err := errors.New("factory function must return non nil value")
+		n.unregisterSpawnName(p, err)
+		return p.pid, err
 	}
 	p.behavior = behavior
 	p.sbehavior = strings.TrimPrefix(reflect.TypeOf(behavior).String(), "*")
@@ -1694,7 +1695,7 @@ func (n *node) spawn(factory gen.ProcessFactory, options gen.ProcessOptionsExtra
 	p.log.setSource(logSource)
 
 	if err := behavior.ProcessInit(p, options.Args...); err != nil {
-		n.names.Delete(p.name)
+		n.unregisterSpawnName(p, err)
 		// make sure to notify children that might have been spawned
 		// (during ProcessInit callback) with the enabled LinkParent option
 		messageExit := gen.MessageExitPID{
@@ -1747,6 +1748,17 @@ func (n *node) spawn(factory gen.ProcessFactory, options gen.ProcessOptionsExtra
 	p.run()
 
 	return p.pid, nil
+}
+
+// unregisterSpawnName releases the name registered for a process that failed to start.
+// The name was already reachable (links/monitors by name), so its relations must be drained.
+func (n *node) unregisterSpawnName(p *process, reason error) {
+	if p.name == "" {
+		return
+	}
+	n.names.Delete(p.name)
+	pname := gen.ProcessID{Name: p.name, Node: n.name}
+	n.RouteTerminateProcessID(pname, reason)
 }
 
 func (n *node) unregisterProcess(p *process, reason error) {
